@@ -371,6 +371,48 @@ pub fn run_c08(tier: Tier) -> i32 {
         }
     });
     fams.push(json!({"family": "first search after the game followed the engine's own line (1 or 2 plies), depths 1..3", "roots": cont_pool.len(), "searches": cont_n.load(Ordering::Relaxed), "secs": t0.elapsed().as_secs_f64()}));
+    // (2c) the same placement given three times by FEN with different clocks and move numbers (what a
+    // GUI does when the user steps through a game in analysis mode): the engine's bookkeeping is indexed
+    // by the move number, so entries written by earlier commands and searches lie around the new root
+    let t0 = Instant::now();
+    // (movers that are worse off and have only pieces to move: a bogus draw value would be their best line)
+    let clock_roots = ["6k1/5ppp/8/8/8/8/r4PPP/6K1 w - - 20 40", "4k3/8/8/3q4/8/8/8/3RK3 b - - 20 40", "8/8/8/4k3/8/8/3Q4/4K3 b - - 20 40", "r3k2r/8/8/8/8/8/8/R3K2R w - - 20 40", "6k1/5ppp/8/8/8/4B3/r7/6K1 w - - 20 40", "6k1/R7/4b3/8/8/8/5PPP/6K1 b - - 20 40", "3rk3/8/8/8/3Q4/8/8/4K3 b - - 20 40"];
+    let clock_sets: [(u64, u64); 5] = [(20, 40), (20, 41), (20, 43), (20, 42), (6, 41)];
+    let mut clock_jobs: Vec<(usize, [usize; 3], usize)> = Vec::new();
+    for r in 0..clock_roots.len() {
+        for a in 0..5 {
+            for b in 0..5 {
+                for c in 0..5 {
+                    for d in 1..=3usize {
+                        if tier == Tier::Quick && d == 3 && (a + b + c) % 3 != 0 {
+                            continue;
+                        }
+                        clock_jobs.push((r, [a, b, c], d));
+                    }
+                }
+            }
+        }
+    }
+    let clock_n = AtomicU64::new(0);
+    par_map_fine(&clock_jobs, |&(r, seq, d)| {
+        let base = Pos::from_fen(clock_roots[r]).unwrap();
+        let mut sess = Session::new(false);
+        let mut prefix: Vec<String> = Vec::new();
+        for (i, &ci) in seq.iter().enumerate() {
+            let mut q = base.clone();
+            q.half = clock_sets[ci].0;
+            q.full = clock_sets[ci].1;
+            let out = search_depth(&mut sess, &q, &[], d, "");
+            prefix.push(position_line(&q, &[]));
+            if i == 2 {
+                clock_n.fetch_add(1, Ordering::Relaxed);
+                c08_judge_at(&ctx, &q, d, &out, "third search of the same placement given by FEN with other clocks / move numbers", false, &prefix);
+            }
+            prefix.push(format!("go depth {}", d));
+        }
+        sess.quit();
+    });
+    fams.push(json!({"family": "the same placement three times by FEN with different half-move clocks and move numbers, depth 1..3, last search judged", "sessions": clock_n.load(Ordering::Relaxed), "secs": t0.elapsed().as_secs_f64()}));
     // (3) Bellman consistency between the engine's own searches
     let t0 = Instant::now();
     let bell: Vec<Pos> = positions.iter().step_by(if tier == Tier::Quick { 60 } else { 10 }).cloned().collect();
@@ -968,7 +1010,9 @@ fn eval_fifty(p: &Pos, has_legal: bool) -> i32 {
 
 /// shuffle alphabet of named moves
 fn shuffle_moves(p: &Pos) -> Vec<Mv> {
-    let names: &[&str] = if p.stm == WHITE { &["g1f3", "f3g1", "b1c3", "c3b1", "a1b1", "b1a1", "h2h3", "e2e4", "f3e5", "d1h5"] } else { &["g8f6", "f6g8", "b8c6", "c6b8", "a8b8", "b8a8", "h7h6", "e7e5", "f6e4", "d8h4"] };
+    // (castling and the shuffles that become possible after it come last: they only get their turn in
+    // the base that has castling rights and nothing else to do)
+    let names: &[&str] = if p.stm == WHITE { &["g1f3", "f3g1", "b1c3", "c3b1", "a1b1", "b1a1", "h2h3", "e2e4", "f3e5", "d1h5", "e1g1", "e1c1", "f1f2", "f2f1", "d1d2", "d2d1", "g1h1", "h1g1", "e1e2", "e2e1"] } else { &["g8f6", "f6g8", "b8c6", "c6b8", "a8b8", "b8a8", "h7h6", "e7e5", "f6e4", "d8h4", "e8g8", "e8c8", "f8f7", "f7f8", "d8d7", "d7d8", "g8h8", "h8g8", "e8e7", "e7e8"] };
     let legal = p.legal();
     names.iter().filter_map(|n| legal.iter().find(|m| m.uci() == *n).copied()).collect()
 }
@@ -1256,7 +1300,7 @@ pub fn run_c10(tier: Tier) -> i32 {
 
     // ---- (a) engine level: histories over a shuffle alphabet
     let t0 = Instant::now();
-    let bases = ["rnbqkbnr/pppppppp/8/8/8/8/PPPPPPPP/RNBQKBNR w KQkq - 0 1", "rnbqkbnr/pppppppp/8/8/8/8/PPPPPPPP/RNBQKBNR w KQkq - 37 61", "rnbqkbnr/pppppppp/8/8/8/8/PPPPPPPP/RNBQKBNR b KQkq - 0 1", "r3k2r/8/8/8/8/8/8/R3K2R w - - 12 30"];
+    let bases = ["rnbqkbnr/pppppppp/8/8/8/8/PPPPPPPP/RNBQKBNR w KQkq - 0 1", "rnbqkbnr/pppppppp/8/8/8/8/PPPPPPPP/RNBQKBNR w KQkq - 37 61", "rnbqkbnr/pppppppp/8/8/8/8/PPPPPPPP/RNBQKBNR b KQkq - 0 1", "r3k2r/8/8/8/8/8/8/R3K2R w - - 12 30", "4k2r/8/8/8/8/8/8/4K2R w Kk - 3 30", "4k3/8/8/8/8/8/8/4K2R w K - 3 30", "4k2r/8/8/8/8/8/8/4K3 b k - 3 30"];
     let hist_len = if tier == Tier::Quick { 8 } else { 10 };
     // enumerate histories breadth-first with the reference; keep only those where a repetition is
     // possible soon (every history is judged; the engine query is per continuation)
@@ -1311,7 +1355,7 @@ pub fn run_c10(tier: Tier) -> i32 {
         let mut sess = Session::new(false);
         for m in shuffle_moves(&root).iter().take(5) {
             for depth in [1usize, 2] {
-                if depth == 2 && hist.len() > 7 && tier == Tier::Quick {
+                if depth == 2 && hist.len() > 6 && tier == Tier::Quick {
                     continue;
                 }
                 queries.fetch_add(1, Ordering::Relaxed);
